@@ -596,6 +596,23 @@ def lateid_rule(ctx, syn):
                     r.hit(key, sample={"fn": fn.qual, "assigns": unparse(e)[:50], "registers": reg})
                     if not reg:
                         ctx.report(r, key, "%s gives an item that is already stored its identifier (`%s`) without registering it in the id map: the identifier is shown by the item but does not resolve to it" % (fn.qual, unparse(e)[:60]), fn.file, e.get("l"))
+        # the same with a plain `let x = ..get_mut(..)?;` in a block
+        for blk in walk(fn.body):
+            if not isinstance(blk.get("stmts"), list):
+                continue
+            names = set()
+            for st_ in blk["stmts"]:
+                if st_.get("k") == "let" and st_.get("init") is not None and "get_mut(" in unparse(st_["init"]).replace(" ", ""):
+                    names.update(pat_names(st_["pat"]))
+                e = st_.get("e") if st_.get("k") == "exprstmt" else None
+                if e and e.get("k") == "assign" and strip(e["left"]).get("k") == "field" and strip(e["left"])["member"] == "id" and strip(strip(e["left"])["base"]).get("k") == "path" and strip(strip(e["left"])["base"])["path"][0] in names:
+                    n += 1
+                    key = "%s|%s.id" % (fn.qual, strip(strip(e["left"])["base"])["path"][0])
+                    block_src = " ".join(unparse(x) for x in blk["stmts"])
+                    reg = re.search(r"idmap\w*(\(\))?\.(register|insert)\(|idmap_mut\(\)", block_src) is not None
+                    r.hit(key, sample={"fn": fn.qual, "assigns": unparse(e)[:50], "registers": reg})
+                    if not reg:
+                        ctx.report(r, key, "%s gives an item that is already stored its identifier (`%s`) without registering it in the id map: the identifier is shown by the item but does not resolve to it (and a second item can take the same identifier)" % (fn.qual, unparse(e)[:60]), fn.file, e.get("l"))
     ctx.floor(r, n, 1, "identifiers assigned after insertion")
 
 
